@@ -4,10 +4,14 @@ C04 — Turtle / TriG output (plain or pretty) parses back to an isomorphic data
 Theorems about `SophiaModel.Pretty` (the model the driver `smd_C04` executes and the harness compares
 byte for byte with `turtle/src/serializer/_pretty.rs`) and about the regexes regenerated from /repo.
 
+Layer 0  the state of the checked tree: the branch switches regenerated from /repo (`repo_flags`) — a regression
+         of one of the repaired defects flips a flag and this obligation fails.
 Layer 1  token safety: what the writer's tests accept is a token of the W3C Turtle production that
          re-reads with the same datatype / the same local name.
-Layer 2  `get_checked_prefixed_pair`, `write_literal`.
+Layer 2  `get_checked_prefixed_pair`, `write_literal` (bare and quoted), indentation.
 Layer 3  graph-shape analysis: `build_lists`, `build_labelled`.
+Layer 4  collecting the dataset and classifying its subjects: nothing dropped, nothing invented.
+Layer 5  the writer: every `Root` subject of every graph is handed to `write_tree`.
 -/
 import SophiaModel.Model.Pretty
 import SophiaModel.Model.TurtleTokens
@@ -17,9 +21,24 @@ import SophiaProofs.Lemmas.Pretty
 import SophiaProofs.Lemmas.PrettyLists
 import SophiaProofs.Lemmas.PrettyLabelled
 import SophiaProofs.Lemmas.PrettyCycle
+import SophiaProofs.Lemmas.PrettyEmit
+import SophiaProofs.Lemmas.PrettyWriter
 
 namespace SophiaProofs.C04
 open SophiaModel Re Pretty
+
+/-! ## Layer 0 — the checked tree -/
+
+/-- the four repaired branches are the repaired ones on the checked tree (tools/extractors/c04.py recognises the
+shipped and the repaired text of each and fails closed on anything else): `()` only in node position, the
+per-walk stamp of the cycle walk, a second rdf:rest disqualifies a list cell (`_pretty.rs`), and
+`with_indentation` asserts Turtle white space (`turtle.rs`, d9e6461).  The theorems below that are conditional on
+a flag are instantiated with it (`cycle_has_labelled_holds`, `list_cell_one_rest_holds`, `indent_safe_holds`),
+so a regression of /repo fails a proof obligation and not only the differential. -/
+theorem repo_flags :
+    Gen.PrettyFlags.nilNodeOnly = true ∧ Gen.PrettyFlags.walkStamp = true ∧ Gen.PrettyFlags.singleRest = true ∧
+    Gen.PrettyFlags.indentTurtleWs = true := by
+  decide
 
 /-! ## Layer 1 — token safety -/
 
@@ -55,6 +74,27 @@ theorem decimal_safe_verdict : InclVerdict Gen.TTL_DECIMAL TurtleTokens.DECIMAL 
 `∀ w, Matches Gen.TTL_DOUBLE w → Matches TurtleTokens.DOUBLE w`. -/
 theorem double_safe_verdict : InclVerdict Gen.TTL_DOUBLE TurtleTokens.DOUBLE :=
   inclVerdict_of_check _ _ (by native_decide)
+
+/-- `DECIMAL.is_match` ⇒ Turtle DECIMAL (fails to compile if the unescaped `.` comes back) -/
+theorem decimal_safe : ∀ w, Matches Gen.TTL_DECIMAL w → Matches TurtleTokens.DECIMAL w :=
+  decideIncl_sound _ _ (by native_decide)
+
+/-- `DOUBLE.is_match` ⇒ Turtle DOUBLE -/
+theorem double_safe : ∀ w, Matches Gen.TTL_DOUBLE w → Matches TurtleTokens.DOUBLE w :=
+  decideIncl_sound _ _ (by native_decide)
+
+/-- the shape of a well-formed BCP47 tag (subtags of 1–8 alphanumerics, the first one alphabetic) -/
+def wfLangTag : Re :=
+  seqs [between 1 8 (.cls [(0x41, 0x5A), (0x61, 0x7A)]),
+        .star (seqs [chr '-', between 1 8 (.cls [(0x41, 0x5A), (0x61, 0x7A), (0x30, 0x39)])])]
+
+/-- every tag of that shape is accepted by `LanguageTag::new` and, written after `@`, is a Turtle LANGTAG.
+(`LANG_TAG` itself is wider — "A0", see `langtag_safe_verdict` — and says so in its doc; such tags are outside the
+property's quantifier.) -/
+theorem langtag_wf_safe : ∀ w, Matches wfLangTag w → Matches Gen.LANG_TAG w ∧ Matches TurtleTokens.LANGTAG w :=
+  fun w h => ⟨decideIncl_sound _ _ (by native_decide) w h, decideIncl_sound _ _ (by native_decide) w h⟩
+
+example : Matches wfLangTag (ofStr "de-CH-1996") ∧ ¬ Matches wfLangTag (ofStr "A0-x") := by decide
 
 /-- `LanguageTag::new` vs Turtle LANGTAG (`[a-zA-Z]+ ('-' [a-zA-Z0-9]+)*`): verdict.  The shipped
 `LANG_TAG` admits digits in the first subtag ("A0"), which is not BCP47 and not a Turtle LANGTAG;
@@ -126,18 +166,92 @@ example : getCheckedPrefixedPair [("a".toList, "http://e/".toList), ("ab".toList
 
 /-- `write_literal` writes a literal bare only if the text is a token of the Turtle production that
 re-reads with the same datatype (and, the token being the lexical form itself, the same lexical form).
-PARTIAL: for xsd:decimal / xsd:double only under "the decision procedure found no witness"
-(true with notes/fixes/C04-regex-dots.diff; on the shipped tree see `decimal_safe_verdict`).
-FULL STATEMENT: `∀ dt lex, shorthand dt lex = true → turtleTokenOk dt lex = true`. -/
-theorem bare_literal_sound_partial (dt lex : Str) (hp : Lemmas.Pretty.shorthandProved dt)
-    (h : shorthand dt lex = true) : turtleTokenOk dt lex = true :=
-  Lemmas.Pretty.bare_sound dt lex
-    integer_safe boolean_safe
-    (fun hn => incl_of_verdict _ _ decimal_safe_verdict hn)
-    (fun hn => incl_of_verdict _ _ double_safe_verdict hn) hp h
+FULL statement, for every datatype and lexical form (it was `…_partial` while DECIMAL / DOUBLE had the
+unescaped dot: finding C04-numeric-dot, repaired). -/
+theorem bare_literal_sound (dt lex : Str) (h : shorthand dt lex = true) : turtleTokenOk dt lex = true :=
+  Lemmas.Pretty.bare_sound_full dt lex integer_safe boolean_safe decimal_safe double_safe h
 
-example : Lemmas.Pretty.shorthandProved xsdInteger := Or.inl rfl
+/-- … and the datatype is one of the four that have a shorthand, and the text written is the lexical form -/
+theorem bare_literal_written (cfg : Cfg) (dt lex : Str) (h : shorthand dt lex = true) :
+    writeLiteral cfg (.lit lex dt) = lex ∧
+    (dt = xsdInteger ∨ dt = xsdDecimal ∨ dt = xsdDouble ∨ dt = xsdBoolean) := by
+  refine ⟨by simp [writeLiteral, h], Lemmas.Pretty.shorthand_dt dt lex h⟩
+
 example : shorthand xsdInteger "+12".toList = true := by native_decide
+example : shorthand xsdDecimal "12".toList = false ∧ shorthand xsdDecimal ".5".toList = true := by native_decide
+example : shorthand xsdDouble "1x5e3".toList = false ∧ shorthand xsdDouble "1.e+3".toList = true := by native_decide
+
+/-- a literal that is not written bare is written as a STRING_LITERAL_QUOTE whose decoding (the reader of C03:
+ECHAR / UCHAR, no raw quote, backslash, LF, CR) gives back exactly the lexical form; what follows the closing
+quote is `@tag`, nothing (xsd:string) or `^^` and the datatype IRI. -/
+theorem quoted_literal_reads_back (cfg : Cfg) (lex dt : Str) (h : shorthand dt lex = false) :
+    ∃ body, writeLiteral cfg (.lit lex dt) = '"' :: body ∧
+      NT.readStrBody body = some (lex, if dt != xsdString then '^' :: '^' :: writeIri cfg .other dt else []) := by
+  refine ⟨quotedString lex ++ '"' :: (if dt != xsdString then '^' :: '^' :: writeIri cfg .other dt else []), ?_, ?_⟩
+  · simp [writeLiteral, h]
+  · exact SophiaProofs.NTL.read_quoted lex _
+
+theorem lang_literal_reads_back (cfg : Cfg) (lex tag : Str) :
+    ∃ body, writeLiteral cfg (.lang lex tag) = '"' :: body ∧ NT.readStrBody body = some (lex, '@' :: tag) :=
+  ⟨quotedString lex ++ '"' :: '@' :: tag, by simp [writeLiteral], SophiaProofs.NTL.read_quoted lex _⟩
+
+/-- the escaped text never contains a raw line end or an unescaped quote: `unescape` inverts `quoted_string` -/
+theorem quoted_string_roundtrip (s : Str) : NT.unescape (quotedString s) = some s := by
+  simp [NT.unescape, quotedString, SophiaProofs.NTL.read_quoted]
+
+example : quotedString "a\"b\\c\nd\r".toList = "a\\\"b\\\\c\\nd\\r".toList := by decide
+
+/-! ### indentation -/
+
+/-- FULL STATEMENT: an indentation a configuration can carry consists of white space of the Turtle grammar
+(`WS ::= #x20 | #x9 | #xD | #xA`) — only then do the line breaks + indentation the writer inserts between tokens
+separate them. -/
+def IndentSafe : Prop := ∀ ind : Str, indentAccepted ind = true → ∀ c ∈ ind, isTurtleWs c = true
+
+/-- holds for the repaired assertion (notes/fixes/C04-indent-turtle-ws.diff, /repo d9e6461) -/
+theorem indent_safe_partial (h : Gen.PrettyFlags.indentTurtleWs = true) : IndentSafe := by
+  intro ind ha c hc
+  simp only [indentAccepted, h, ↓reduceIte, List.all_eq_true] at ha
+  exact ha c hc
+
+/-- the FULL statement on the checked tree (instantiated with `repo_flags`) -/
+theorem indent_safe_holds : IndentSafe := indent_safe_partial repo_flags.2.2.2
+
+/-- kernel-checked refutation for the formerly shipped assertion (`char::is_whitespace`), finding
+C04-indent-unicode-ws (fixed): U+00A0 is accepted -/
+theorem indent_safe_refuted (h : Gen.PrettyFlags.indentTurtleWs = false) : ¬ IndentSafe := by
+  intro hs
+  have ha : indentAccepted [Char.ofNat 0xA0] = true := by
+    simp only [indentAccepted, h]
+    decide
+  have := hs [Char.ofNat 0xA0] ha (Char.ofNat 0xA0) (by simp)
+  revert this
+  decide
+
+/-- the property's clause holds exactly for the repaired assertion -/
+theorem indent_safe_iff : IndentSafe ↔ Gen.PrettyFlags.indentTurtleWs = true := by
+  constructor
+  · intro hs
+    cases hf : Gen.PrettyFlags.indentTurtleWs with
+    | true => rfl
+    | false => exact absurd hs (indent_safe_refuted hf)
+  · exact indent_safe_partial
+
+/-- conversely, both variants accept every indentation made of Turtle white space (what the driver demands as
+`o.cfg=ok`) -/
+theorem indent_turtle_ws_accepted (ind : Str) (h : ∀ c ∈ ind, isTurtleWs c = true) : indentAccepted ind = true := by
+  unfold indentAccepted
+  split
+  · exact List.all_eq_true.mpr h
+  · exact List.all_eq_true.mpr (fun c hc => Lemmas.PrettyEmit.turtleWs_unicodeWs c (h c hc))
+
+/-- `unindent` after `indent` restores the indentation (also for multi-byte indentations: both are measured in the
+same unit) -/
+theorem indent_unindent (w : W) (env : Env) : ((w.more env).less env).indent = w.indent :=
+  Lemmas.PrettyEmit.less_more w env
+
+example : indentAccepted "\t  \r\n".toList = true := by decide
+example : indentAccepted [Char.ofNat 0xA0] = false ∧ indentAccepted [Char.ofNat 0xC] = false := by decide
 
 /-! ## Layer 3 — graph-shape analysis -/
 
@@ -186,6 +300,12 @@ theorem list_cell_one_rest (hs : Gen.PrettyFlags.singleRest = true) (d : List Qu
     exact ⟨by rw [hqs]; exact SophiaProofs.C02.termEq_refl c, hqp⟩
   have : 0 < (d.filter (fun q => Term.termEq q.s c && isRest q)).length := List.length_pos_of_mem hmem
   omega
+
+/-- the FULL statement on the checked tree (instantiated with `repo_flags`) -/
+theorem list_cell_one_rest_holds (d : List Quad) (c v o : Term)
+    (hi : listItem c d = some v) (hl : RestLink d c o) :
+    (d.filter (fun q => Term.termEq q.s c && isRest q)).length = 1 :=
+  list_cell_one_rest repo_flags.2.2.1 d c v o hi hl
 
 /-- the minimal input of finding C04-multi-rest (GSPO order): `<x:s> <x:p> _:a. _:a rdf:first <x:1>; rdf:rest _:b, rdf:nil.
 _:b <x:p> <x:o>.` -/
@@ -287,6 +407,21 @@ every predecessor chain ends or reaches a `bad` node after `detectCycles`, inclu
 theorem cycle_has_labelled (hs : Gen.PrettyFlags.walkStamp = true) : CycleHasLabelled :=
   fun d c hne hc => Lemmas.PrettyCycle.closed_set_has_labelled hs d c hne hc
 
+/-- `cycle_has_labelled` on the checked tree: unconditional (instantiated with `repo_flags`) -/
+theorem cycle_has_labelled_holds : CycleHasLabelled := cycle_has_labelled repo_flags.2.1
+
+-- non-vacuity: a two-cycle with a tail, the closed set {a, b}
+example : ∃ l ∈ ["a".toList, "b".toList], l ∈ buildLabelled
+    [⟨.bnode "a".toList, .iri "x:p".toList, .bnode "b".toList, none⟩,
+     ⟨.bnode "b".toList, .iri "x:p".toList, .bnode "a".toList, none⟩,
+     ⟨.bnode "b".toList, .iri "x:p".toList, .bnode "c".toList, none⟩] :=
+  cycle_has_labelled_holds _ _ (by simp) (by
+    intro l hl
+    simp only [List.mem_cons, List.not_mem_nil, or_false] at hl
+    rcases hl with rfl | rfl
+    · exact ⟨"b".toList, by simp, ⟨.bnode "b".toList, .iri "x:p".toList, .bnode "a".toList, none⟩, by simp, rfl, rfl⟩
+    · exact ⟨"a".toList, by simp, ⟨.bnode "a".toList, .iri "x:p".toList, .bnode "b".toList, none⟩, by simp, rfl, rfl⟩)
+
 /-- kernel-checked refutation for the shipped walk (finding C04-cycle-tail) -/
 theorem cycle_has_labelled_refuted (hs : Gen.PrettyFlags.walkStamp = false) : ¬ CycleHasLabelled := by
   intro h
@@ -310,5 +445,93 @@ theorem cycle_has_labelled_iff : CycleHasLabelled ↔ Gen.PrettyFlags.walkStamp 
     | true => rfl
     | false => exact absurd h (cycle_has_labelled_refuted hf)
   · exact cycle_has_labelled
+
+/-! ## Layer 4 — collecting the dataset, classifying its subjects -/
+
+open Lemmas.PrettyEmit
+
+/-- pretty mode first collects the stream into a `BTreeSet` (`mkDataset`): nothing is invented — every quad of the
+set is a quad of the stream -/
+theorem dataset_no_invention (qs : List Quad) (q : Quad) (h : q ∈ mkDataset qs) : q ∈ qs := by
+  rcases foldl_insert_sub qs [] q h with h | h
+  · exact h
+  · cases h
+
+/-- … and nothing is dropped: every quad of the stream has a representative in the set that the set's order
+identifies with it (`Ord::cmp = Equal`) -/
+theorem dataset_no_loss (qs : List Quad) (q : Quad) (h : q ∈ qs) : ∃ q' ∈ mkDataset qs, quadCmp q q' = .eq :=
+  foldl_insert_has qs [] q h
+
+/-- … which, for well-formed terms, is the same RDF statement (`Term::eq` on subject, predicate, object and graph
+name; C02's `cmp_eq_iff`) -/
+theorem dataset_no_loss_wf (qs : List Quad) (hwf : ∀ q ∈ qs, QuadWF q) (q : Quad) (h : q ∈ qs) :
+    ∃ q' ∈ mkDataset qs, Term.termEq q.s q'.s = true ∧ Term.termEq q.p q'.p = true ∧ Term.termEq q.o q'.o = true ∧
+      gEq q.g q'.g = true := by
+  obtain ⟨q', hq', he⟩ := dataset_no_loss qs q h
+  exact ⟨q', hq', quadCmp_eq_same q q' (hwf q h) (hwf q' (dataset_no_invention qs q' hq')) he⟩
+
+/-- `build_subject_types` has an entry for the (graph, subject) of every quad, and only for those: the table the
+writer walks (`write_graph` over the Roots, `find_subject` for SubTrees / Annotations) misses no subject.
+(That each entry is then *written* exactly once is not proved: it is the differential's and the round trip's
+job — see the ghost counter `undone` of the driver.) -/
+theorem every_subject_classified (d : List Quad) (lab : List Str) (q : Quad) (h : q ∈ d) :
+    ∃ e ∈ buildSubjectTypes d lab, gEq q.g e.g = true ∧ Term.termEq q.s e.s = true ∧ e.st = classify d lab e.g e.s := by
+  obtain ⟨y, hy, e1, e2⟩ := dedupGS_covers (d.map (fun q => (q.g, q.s))) (q.g, q.s) (List.mem_map.mpr ⟨q, h, rfl⟩)
+  exact ⟨⟨y.1, y.2, classify d lab y.1 y.2⟩, List.mem_map.mpr ⟨y, hy, rfl⟩, e1, e2, rfl⟩
+
+theorem subject_types_no_invention (d : List Quad) (lab : List Str) (e : STEntry) (h : e ∈ buildSubjectTypes d lab) :
+    ∃ q ∈ d, q.g = e.g ∧ q.s = e.s := by
+  obtain ⟨y, hy, rfl⟩ := List.mem_map.mp h
+  obtain ⟨q, hq, rfl⟩ := List.mem_map.mp (dedupGS_sub _ y hy)
+  exact ⟨q, hq, rfl, rfl⟩
+
+-- non-vacuity: the duplicate is collapsed, both subjects are classified
+example :
+    let d := mkDataset [⟨.iri "x:s".toList, .iri "x:p".toList, .bnode "b".toList, none⟩,
+      ⟨.bnode "b".toList, .iri "x:q".toList, .iri "x:o".toList, none⟩,
+      ⟨.iri "x:s".toList, .iri "x:p".toList, .bnode "b".toList, none⟩]
+    d.length = 2 ∧ (buildSubjectTypes d (buildLabelled d)).map (·.st) = [.subTree, .root] := by native_decide
+
+/-! ## Layer 5 — the writer -/
+
+open Lemmas.PrettyWriter
+
+/-- `write_graph` (the loop `for i in self.graph_range`): every entry of the current graph's range that is a `Root`
+when the loop starts is `Done` when it ends — it was handed to `write_tree` (the only place that marks a Root) —
+and still names the same subject. -/
+theorem write_graph_roots_done (env : Env) (fuel : Nat) (w : W) (i : Nat) (e : STEntry)
+    (hlo : w.lo ≤ i) (hhi : i < w.hi) (he : w.sts[i]? = some e) (hst : e.st = .root) :
+    ∃ e', (writeGraph env fuel w).sts[i]? = some e' ∧ e'.st = .done ∧ e'.s = e.s :=
+  writeGraph_roots_done env fuel w i e hlo hhi he hst
+
+/-- `TurtleSerializer/TrigSerializer{pretty}.serialize_*` = collect + `Prettifier::new` + `write_all`, on ANY stream
+of quads.  PARTIAL statement of `every_subject_once` (DESIGN 4.4):
+(1) the writer never changes which (graph, subject) an entry of the subject table stands for, and a type only ever
+changes to `Done`; (2) NO `Root` is left at the end: every Root subject of the default graph and of every named
+graph has been handed to `write_tree` (the loop over the named graphs covers the whole table and never meets
+`g1.unwrap()` on `None`, because the collected set puts the default graph first — `mkDataset_nonePrefix` — and
+`build_subject_types` / `build_lists` keep the order).
+FULL STATEMENT additionally: every `SubTree` / `Annotation` entry is `Done` at the end (reached from its unique
+parent) and nothing is written twice — not proved; observed per request by the driver's ghost counter `undone`
+and by the round-trip oracle (`FAIL.not_isomorphic`, `FAIL.duplicate_statement`). -/
+theorem roots_all_written_partial (cfg : Cfg) (quads : List Quad) (lists : Lists) (sts : List STEntry) (w : W)
+    (hl : buildLists (mkDataset quads) (buildSubjectTypes (mkDataset quads) (buildLabelled (mkDataset quads))) = some (lists, sts))
+    (h : serialize cfg quads = .done w) :
+    (w.sts.length = sts.length ∧
+      ∀ (i : Nat) (e : STEntry), sts[i]? = some e →
+        ∃ e', w.sts[i]? = some e' ∧ e'.g = e.g ∧ e'.s = e.s ∧ (e'.st = e.st ∨ e'.st = .done)) ∧
+    ∀ e ∈ w.sts, e.st ≠ .root :=
+  serialize_roots_done cfg quads lists sts w hl h
+
+-- non-vacuity: two graphs, a Root with an inlined SubTree and an annotated statement; nothing is left undone
+example :
+    (match serialize ⟨[], "  ".toList⟩ (
+        [⟨.iri "x:s".toList, .iri "x:p".toList, .bnode "b".toList, none⟩,
+         ⟨.bnode "b".toList, .iri "x:q".toList, .iri "x:o".toList, none⟩,
+         ⟨.iri "x:s".toList, .iri "x:p".toList, .iri "x:o".toList, some (.iri "x:g".toList)⟩,
+         ⟨.triple (.iri "x:s".toList) (.iri "x:p".toList) (.iri "x:o".toList), .iri "x:by".toList, .iri "x:me".toList,
+           some (.iri "x:g".toList)⟩]) with
+     | .done w => !w.fault && w.sts.length == 4 && w.sts.all (fun e => e.st == .done)
+     | .diverges => false) = true := by native_decide
 
 end SophiaProofs.C04
